@@ -43,7 +43,7 @@ def gen_designator(rng, kind, maxlen=255):
     """returns (designator_type, value dict in library vocabulary)"""
     if kind == "vendor":
         # every length a short (CSCD descriptor) designator may have, or the byte-boundary lengths of a long one
-        return 0, {"vendor_specific": gen.byte_string(rng, rng.choice([1, 4, 8, 20, 127, 128, 255]) if maxlen >= 255 else rng.randint(1, min(maxlen, 20)))}
+        return 0, {"vendor_specific": gen.byte_string(rng, rng.choice([0, 1, 4, 8, 20, 127, 128, 255]) if maxlen >= 255 else rng.randint(1, min(maxlen, 20)))}
     if kind == "t10":
         n = rng.choice([0, 1, 8, 12, 24, 100]) if maxlen >= 255 else rng.randint(0, max(0, min(maxlen, 20) - 8))
         return 1, {"t10_vendor_id": gen.byte_string(rng, 8, "text"), "vendor_specific_id": gen.byte_string(rng, n)}
